@@ -51,6 +51,10 @@ RULE = (
     'return every node must be the registering session\'s own ephemeral and '
     'survive the expiry of all other sessions; non-trivial = the call had to '
     'sleep at least once or met a foreign node with identical content. '
+    'Host names of every kind come from 6 triples x 3 rotations (field '
+    '"names"), 5 of which contain names that are proper prefixes / suffixes '
+    '/ substrings of each other (node1, node10, node1-b, tm-srv, tm-srv-b, '
+    'xtm-srv, srv); counters cases_hosts_*. '
     'distinct = canonical JSON of the case.'
 )
 ASSUMPTIONS = [
@@ -143,7 +147,8 @@ def _decode_sched(raw):
     for pos in range(5, len(raw) - 4, 5):
         code = int.from_bytes(raw[pos:pos + 5], 'little')
         ops.extend(_dec_op(code, ninst, nhosts))
-    return {'kind': 'sched', 'hosts': nhosts, 'ops': ops}
+    return {'kind': 'sched', 'hosts': nhosts,
+            'names': sim.name_set(raw[4] // 4), 'ops': ops}
 
 
 def sched_case():
@@ -196,6 +201,7 @@ def _decode_unreg(rdr):
         'call': rdr.pick(('running', 'endpoints', 'identity', 'kill')),
         'apps': apps,
         'target': rdr.pick(2),
+        'names': sim.name_set(rdr.pick(18)),
     }
 
 
@@ -214,6 +220,7 @@ def _decode_unsched(rdr):
                            'service_running', 'configured', 'pending')),
         'insts': insts,
         'target': rdr.pick(3),
+        'names': sim.name_set(rdr.pick(18)),
     }
 
 
@@ -252,6 +259,7 @@ def _decode_register(rdr):
             'ident': rdr.pick(_OLD),
             'eps': [rdr.pick(_OLD) for _e in range(rdr.pick(4))],
         },
+        'names': sim.name_set(rdr.pick(18)),
     }
 
 
@@ -341,6 +349,21 @@ def fixed_cases():
             'ident': None,
             'old': [{'host': 1, 'same_port': True, 'end': None}],
             'held': {'running': None, 'ident': None, 'eps': [None, 0]}}),
+        # host names where one is a proper prefix of the other: blackout of
+        # node1 while node10 runs the newer container of the instance
+        ('kill-prefix-named-host', {
+            'kind': 'sched', 'hosts': 2,
+            'names': ['node1', 'node10', 'node2'], 'ops': [
+                ['new', 0, 0, [0, 1], ['g', 0]], ['fin', 0],
+                ['new', 0, 1, [0, 1], ['g', 0]], ['del', 0, 0], ['fin', 0],
+                ['wat', 0], ['wat', 0], ['wat', 0], ['fin', 0],
+                ['new', 0, 0, [0, 1], ['g', 0]], ['kill', 0], ['fin', 0]]}),
+        ('unregister-prefix-named-host', {
+            'kind': 'unreg', 'me': 0, 'caller': 'self', 'call': 'endpoints',
+            'target': 0, 'names': ['tm-srv', 'tm-srv-b', 'xtm-srv'],
+            'apps': [{'eps': [0, 1, 2], 'ident': ['g', 0], 'placed': True,
+                      'running': 1, 'ep_owner': [1, 0, 2],
+                      'ident_owner': 2}]}),
         # witnesses of the findings of round 1 (see notes/C17-notes.md):
         # service restart replays the request dir newest-first, the old
         # request takes /running over, its clean-up unregisters the new one
